@@ -51,6 +51,7 @@ vars == <<fam, variant, imp, sa, sb, phase, req, res>>
 (* ------------------------------------------------------------------ *)
 E(k, s, n, xs) == [k |-> k, s |-> s, n |-> n, xs |-> xs]
 I(n)        == E("int", "", n, <<>>)
+Flt(n)      == E("flt", "", n, <<>>)         \* the float literal n.0 (equal to, but not the same constant as, n)
 V(x)        == E("var", x, 0, <<>>)
 K(c)        == E("cls", c, 0, <<>>)          \* reference to a class of module a
 F(f)        == E("fref", f, 0, <<>>)         \* reference to a global function of module a
@@ -75,6 +76,8 @@ Ex(e)              == S("expr", "", "", <<e>>, "")         \* e
 Ret(e)             == S("return", "", "", <<e>>, "")       \* return e
 Ch2(t1, t2, e)     == S("chain2", "", "", <<t1, t2, e>>, "")   \* t1 = t2 = e  (targets: attr or var nodes)
 WithD(s, d)        == [s EXCEPT !.d = d]     \* decoration: "comment" (trailing comment) | "semi" (joined to next by ;)
+                                             \* | "wrap" (value in brackets over several physical lines)
+                                             \* | "bslash" (value on a backslash continuation line)
 
 Def(kind, name, params, body, methods) ==
   [kind |-> kind, name |-> name, params |-> params, body |-> body, methods |-> methods]
@@ -134,6 +137,7 @@ TyE(e, self) ==
 (* ------------------------------------------------------------------ *)
 Val(t, n, s) == [t |-> t, n |-> n, s |-> s]
 IntV(n)  == Val("int", n, "")
+FloatV(n) == Val("float", n, "")         \* the float n.0 (the fragment only produces integral floats)
 RefV(i)  == Val("ref", i, "")
 NoneV    == Val("none", 0, "")
 ClsV(c)  == Val("cls", 0, c)
@@ -149,9 +153,11 @@ R(v, h, out) == [v |-> v, h |-> h, out |-> out]
 X(env, h, out, ret, stop) == [env |-> env, h |-> h, out |-> out, ret |-> ret, stop |-> stop]
 
 Arith(op, x, y) ==
-  IF x.t = "int" /\ y.t = "int"
-  THEN (IF op = "//" THEN (IF y.n > 0 THEN IntV(x.n \div y.n) ELSE ErrV)
-        ELSE IntV(CASE op = "+" -> x.n + y.n [] op = "*" -> x.n * y.n [] op = "-" -> x.n - y.n [] OTHER -> 0))
+  IF x.t \in {"int", "float"} /\ y.t \in {"int", "float"}
+  THEN LET n == IF op = "//" THEN (IF y.n > 0 THEN x.n \div y.n ELSE 0)
+                ELSE CASE op = "+" -> x.n + y.n [] op = "*" -> x.n * y.n [] op = "-" -> x.n - y.n [] OTHER -> 0
+       IN IF op = "//" /\ y.n <= 0 THEN ErrV
+          ELSE IF x.t = "float" \/ y.t = "float" THEN FloatV(n) ELSE IntV(n)   \* int op float is a float
   ELSE ErrV
 
 RECURSIVE Eval(_, _, _, _, _), EvalList(_, _, _, _, _, _), Exec(_, _, _, _, _, _), CallF(_, _, _, _, _)
@@ -169,6 +175,7 @@ SetAttr(h, r, f, v) == [h EXCEPT ![r.n].d = Bind(h[r.n].d, f, v)]
 
 Eval(P, e, env, h, out) ==
   CASE e.k = "int"  -> R(IntV(e.n), h, out)
+    [] e.k = "flt"  -> R(FloatV(e.n), h, out)
     [] e.k = "var"  -> R(IF e.s \in DOMAIN env THEN env[e.s] ELSE ErrV, h, out)
     [] e.k = "cls"  -> R(IF HasDef(P, e.s) THEN ClsV(e.s) ELSE ErrV, h, out)
     [] e.k = "fref" -> R(IF HasDef(P, e.s) THEN FunV(e.s) ELSE ErrV, h, out)
@@ -312,6 +319,7 @@ TokArgs(es, i, c) ==
   ELSE TokE(es[i], c) \o (IF i < Len(es) THEN <<Tk(",")>> ELSE <<>>) \o TokArgs(es, i + 1, c)
 TokE(e, c) ==
   CASE e.k = "int"  -> <<Tk(IntTok(e.n))>>
+    [] e.k = "flt"  -> <<Tk(CASE e.n = 1 -> "1.0" [] e.n = 2 -> "2.0" [] e.n = 3 -> "3.0" [] OTHER -> ToString(e.n) \o ".0")>>
     [] e.k = "var"  -> <<VarTok(e.s, c)>>
     [] e.k = "cls"  -> ModPrefixFor(c, e.s) \o <<T(e.s, <<"class", e.s>>)>>
     [] e.k = "fref" -> ModPrefixFor(c, e.s) \o <<T(e.s, <<"func", e.s>>)>>
@@ -342,6 +350,19 @@ TokParams(ps, i, c) ==
   IF i > Len(ps) THEN <<>>
   ELSE <<VarTok(ps[i], c)>> \o (IF i < Len(ps) THEN <<Tk(",")>> ELSE <<>>) \o TokParams(ps, i + 1, c)
 
+\* a statement whose value is laid out over several physical lines: "NLC" is a line break inside
+\* brackets, "BSL" a backslash-newline
+TokSD(s, c) ==
+  IF s.d \in {"wrap", "bslash"} /\ s.k \in {"assign", "setattr", "augattr", "augvar"}
+  THEN LET head == CASE s.k = "assign"  -> <<VarTok(s.s, c), Tk("=")>>
+                     [] s.k = "setattr" -> TokE(A(s.xs[1], s.s), c) \o <<Tk("=")>>
+                     [] s.k = "augattr" -> TokE(A(s.xs[1], s.s), c) \o <<Tk(AugTok(s.t))>>
+                     [] OTHER -> <<VarTok(s.s, c), Tk(AugTok(s.t))>>
+           val == TokE(s.xs[Len(s.xs)], c)
+       IN IF s.d = "wrap" THEN head \o <<Tk("("), Tk("NLC")>> \o val \o <<Tk("NLC"), Tk(")")>>
+          ELSE head \o <<Tk("BSL")>> \o val
+  ELSE TokS(s, c)
+
 RECURSIVE TokBody(_, _, _)
 \* a nested def: its name is a local of the enclosing function (same tag as its uses)
 TokNested(st, c) ==
@@ -351,7 +372,7 @@ TokNested(st, c) ==
 TokBody(ss, i, c) ==
   IF i > Len(ss) THEN <<>>
   ELSE IF ss[i].k = "def" THEN TokNested(ss[i], c) \o TokBody(ss, i + 1, c)
-  ELSE TokS(ss[i], c)
+  ELSE TokSD(ss[i], c)
        \o (IF ss[i].d = "semi" /\ i < Len(ss) THEN <<Tk(";")>>
            ELSE (IF ss[i].d = "comment" THEN <<Tk("#c")>> ELSE <<>>) \o <<Tk("NL")>>)
        \o TokBody(ss, i + 1, c)
@@ -825,6 +846,9 @@ PoolOf(f) ==
         Ent(<<Pr(<<A(NewC(4), "f")>>)>>, "", {}),
         Ent(<<WithD(Pr(<<A(o, "f")>>), "comment")>>, "", {}),
         Ent(<<WithD(Pr(<<A(o, "g")>>), "semi"), Set(o, "f", I(6))>>, "", {}),
+        Ent(<<WithD(Set(o, "f", B("+", A(o, "g"), I(3))), "wrap")>>, "", {}),
+        Ent(<<WithD(Aug(A(p, "h"), "f", "+", A(o, "f")), "wrap")>>, "", {}),
+        Ent(<<WithD(Set(o, "f", MC(o, "m", <<I(2)>>)), "bslash")>>, "", {}),
         Ent(<<WithD(Set(o, "f", I(5)), "comment")>>, "comment", {}),
         Ent(<<WithD(Set(o, "f", I(5)), "semi"), Pr(<<A(o, "g")>>)>>, "semi", {}),
         Ent(<<Aug(o, "f", "//", I(2))>>, "", {}),
@@ -864,6 +888,9 @@ PoolOf(f) ==
         Ent(<<Pr(<<I(5), I(6)>>)>>, "", {}),
         Ent(<<Asg("w", B("*", I(3), I(3))), Pr(<<V("w")>>)>>, "", {}),
         Ent(<<Pr(<<B("+", MC(o, "m", <<I(1)>>), I(1))>>)>>, "", {}),
+        \* the same code as a function body except that a literal is the equal-valued float
+        Ent(<<Pr(<<B("+", A(o, "f"), Flt(1))>>)>>, "", {}),
+        Ent(<<Asg("w", B("+", A(o, "f"), I(2))), Asg("z", B("+", V("w"), Flt(3))), Pr(<<V("z")>>)>>, "", {2}),
         Ent(<<Pr(<<B("*", MC(o, "m", <<I(1)>>), MC(o, "m", <<I(1)>>))>>)>>, "impure", {1}),
         Ent(<<Asg("w", B("+", A(o, "f"), I(2))), Asg("z", B("+", V("w"), I(3))), Pr(<<V("z"), V("w")>>)>>,
             "livetemp", {2}) >>
